@@ -153,7 +153,10 @@ theorem sendPart_CI (s : St σ) (t : Tid) (p : PC) (hp : cls p = .waitS) (after 
     rwa [upd_upd] at this
 
 theorem wrPart_CI (s : St σ) (t : Tid) (m : Meth) (h : CIv s t .idle) : CIs (wrPart s t m) := by
-  unfold wrPart; exact sendPart_CI s t _ rfl _ (fun s1 h1 => afterWrLock_CI s1 t m h1) h
+  unfold wrPart
+  split
+  · exact sendPart_CI s t _ rfl _ (fun s1 h1 => afterWrLock_CI s1 t m h1) h
+  · exact rdPart_CI s t m h
 
 theorem wwPart_CI (s : St σ) (t : Tid) (m : Meth) (h : CIv s t .idle) : CIs (wwPart s t m) := by
   unfold wwPart; exact sendPart_CI s t _ rfl _ (fun s1 h1 => afterWwLock_CI s1 t m h1) h
